@@ -56,6 +56,16 @@ class Prop(common.PropertyCheck):
                    'levels': [(-6, 60), (-3, 12), (-40, 3), (0, 20)][i % 4], 'idt': ['int32', 'int64', 'int16', 'int8'][(i // 2) % 4],
                    'req': ['none', 'subset', 'all_reordered', 'scalar'][(i // 3) % 4], 'negdata': True, 'dupnames': False, 'scform': ['pos', 'default'][i % 2], 'bad': None, 'neg': False}
 
+        # requests given as other containers (tuple, set, frozenset, the keys of a dictionary), mostly on plain arrays
+        for i in range(self.budget(48, 300)):
+            D = rng.randrange(3, 6)
+            yield {'k': 'mef', 'cont': ['array', 'array', 'sample'][i % 3], 'D': D, 'nc': rng.randrange(1, D + 1), 'seed': rng.randrange(1 << 30), 'req': ['subset', 'all_reordered', 'uncovered'][i % 3],
+                   'negdata': False, 'dupnames': False, 'scform': ['pos', 'names', 'mixed'][i % 3], 'bad': None, 'neg': False, 'req_container': ['set', 'frozenset', 'keys', 'tuple'][i % 4]}
+        # every channel of the curves requested, followed by one channel without a curve (the uncovered one comes last)
+        for i in range(self.budget(24, 200)):
+            D = rng.randrange(3, 6)
+            yield {'k': 'mef', 'cont': ['sample', 'array'][i % 2], 'D': D, 'nc': rng.randrange(1, D), 'seed': rng.randrange(1 << 30), 'req': 'uncovered_last',
+                   'negdata': False, 'dupnames': False, 'scform': ['names', 'pos', 'mixed'][i % 3], 'bad': None, 'neg': False}
         # requests given as NumPy arrays of names or of positions, with and without an uncovered channel
         for i in range(self.budget(60, 400)):
             D = rng.randrange(3, 6)
@@ -144,6 +154,10 @@ class Prop(common.PropertyCheck):
             c = r.choice(cols); channels, want = spell2(c), [c]
         elif req == 'subset':
             k = r.randrange(1, nc + 1); sub = r.sample(cols, k); channels, want = [spell2(c) for c in sub], sub
+        elif req == 'uncovered_last':
+            unc = [c for c in range(D) if c not in cols]
+            sub = list(cols); r.shuffle(sub)
+            channels, want = [spell2(c) for c in sub] + [spell2(r.choice(unc))], None
         elif req == 'all_reordered':
             sub = list(cols); r.shuffle(sub); channels, want = [spell2(c) for c in sub], sub
         else:
@@ -197,6 +211,9 @@ class Prop(common.PropertyCheck):
                         'sc_channels': sc_channels}}
         st0 = fpm.state(d) if names else None
         ch_arg = channels
+        if case.get('req_container') and isinstance(channels, list) and channels and len(set(map(str, channels))) == len(channels):
+            kind = case['req_container']
+            ch_arg = set(channels) if kind == 'set' else frozenset(channels) if kind == 'frozenset' else dict.fromkeys(channels).keys() if kind == 'keys' else tuple(channels)
         # (samples: arrays of names; plain arrays: arrays of positions -- NumPy integers are not accepted as positions of a sample)
         if case.get('req_ndarray') and isinstance(channels, list) and channels and (all(isinstance(c, str) for c in channels) if names else all(isinstance(c, int) for c in channels)):
             ch_arg = np.array(channels)          # the request as a NumPy array of names or of positions (e.g. np.array(d.channels)[mask])
